@@ -842,7 +842,7 @@ Qed.
 Lemma ins_inv s reqs peer sess p pid nh tok :
   Inv s reqs -> Inv (fst (step_ins c V s peer sess p pid nh tok)) (reqs ++ snd (step_ins c V s peer sess p pid nh tok)).
 Proof.
-  intro H. unfold step_ins.
+  intro H. unfold step_ins, step_ins_with.
     destruct (apply_import c (s_pol s) peer nh) as [filtered nh'].
     pose proof (do_insert_ok (s_fl s) (s_get s p) (peer, sess) pid nh' tok (attr_of c tok) filtered
                   (match oaddr nh' with Some a => memN a (s_inv s) | None => false end)) as HO.
@@ -1163,7 +1163,7 @@ Qed.
 
 Lemma ins_invF s peer sess p pid nh tok : InvF s -> InvF (fst (step_ins c V s peer sess p pid nh tok)).
 Proof.
-  intro H. unfold step_ins.
+  intro H. unfold step_ins, step_ins_with.
     destruct (apply_import c (s_pol s) peer nh) as [filtered nh'].
     pose proof (do_insert_invok (s_fl s) (s_get s p) (peer, sess) pid nh' tok (attr_of c tok) filtered (s_inv s) (H p)) as HI.
     destruct (do_insert c (s_fl s) (s_get s p) (peer, sess) pid nh' tok (attr_of c tok) filtered _) as [d' ch].
@@ -1207,7 +1207,7 @@ Lemma step_sinv s o a :
   end.
 Proof.
   assert (HI : forall peer sess p pid nh tok, s_inv (fst (step_ins c V s peer sess p pid nh tok)) = s_inv s).
-  { intros. unfold step_ins. destruct (apply_import c (s_pol s) peer nh) as [filtered nh'].
+  { intros. unfold step_ins, step_ins_with. destruct (apply_import c (s_pol s) peer nh) as [filtered nh'].
     destruct (do_insert c _ _ _ _ _ _ _ _ _) as [d' ch]. reflexivity. }
   destruct o; cbn [step]; try reflexivity.
   - rewrite HI. reflexivity.
@@ -1644,7 +1644,7 @@ Qed.
 Lemma ins_invR s reqs peer sess p pid nh tok :
   InvR s reqs -> InvR (fst (step_ins c V s peer sess p pid nh tok)) (reqs ++ snd (step_ins c V s peer sess p pid nh tok)).
 Proof.
-  intro H. unfold step_ins.
+  intro H. unfold step_ins, step_ins_with.
     destruct (apply_import c (s_pol s) peer nh) as [filtered nh'].
     pose proof (fun a => proj2 (do_insert_ref (s_fl s) (s_get s p) peer sess pid nh' tok (attr_of c tok) filtered
                   (match oaddr nh' with Some a => memN a (s_inv s) | None => false end) a)) as HR.
@@ -1930,3 +1930,55 @@ Example ex_limit_values :
   length (d_l (s_get (fst r) (0, 1))) = 1%nat /\ fib_replay (snd r) (None, (0, 1)) = [3] /\
   ref_replay (snd r) 1 = 0 /\ ref_replay (snd r) 2 = 0 /\ ref_replay (snd r) 3 = 1.
 Proof. vm_compute. repeat split; reflexivity. Qed.
+
+(* ---- finding C20-4: insert_route racing a reachability report.  Since the fix the
+   unreachable set is read inside the shard lock: an insert that takes the lock after
+   the reports [mids] of another thread were applied is the insert of the sequential
+   history [pre ++ mids ++ [Insert ...]], to which the theorems above apply. *)
+Lemma C20_insert_race_is_sequential : forall (c : cfg) (pre mids : list op) peer sess p pid nh tok,
+  let s1 := fst (run c Fixed st0 (pre ++ mids)) in
+  step_ins_with c Fixed s1 (s_inv s1) peer sess p pid nh tok = step c Fixed s1 (Insert peer sess p pid nh tok).
+Proof. reflexivity. Qed.
+
+Lemma run_app c v ops1 : forall s ops2,
+  run c v s (ops1 ++ ops2) =
+  let '(s1, r1) := run c v s ops1 in let '(s2, r2) := run c v s1 ops2 in (s2, r1 ++ r2).
+Proof.
+  induction ops1 as [|o t IH]; intros s ops2; cbn [app run].
+  - destruct (run c v s ops2). reflexivity.
+  - destruct (step c v s o) as [s1 r1]. rewrite IH. destruct (run c v s1 t) as [s2 r2].
+    destruct (run c v s2 ops2) as [s3 r3]. rewrite app_assoc. reflexivity.
+Qed.
+
+(* the observation the harness compares (Model run_race, late read) is the one of that history *)
+Lemma C20_run_race_late_eq : forall (c : cfg) (pre mids : list op) peer sess p pid nh tok,
+  run_race false c pre peer sess p pid nh tok mids =
+  let '(s0, _) := run c Fixed st0 pre in
+  let '(s2, r) := run c Fixed s0 (mids ++ [Insert peer sess p pid nh tok]) in
+  VL (observe c Fixed st0 pre ++ [VL [VList v_req r; v_view s2]]).
+Proof.
+  intros. unfold run_race. destruct (run c Fixed st0 pre) as [s0 r0]. rewrite run_app.
+  destruct (run c Fixed s0 mids) as [s1 r1]. cbn [run step]. unfold step_ins.
+  destruct (step_ins_with c Fixed s1 (s_inv s1) peer sess p pid nh tok) as [s2 r2]. rewrite app_nil_r. reflexivity.
+Qed.
+
+(* with the early read (the code before the fix) clause (3) fails: the path inserted while
+   the report was being applied stays selectable although its next hop is unreachable *)
+Definition early_state (c : cfg) (pre mids : list op) peer sess p pid nh tok : st :=
+  let s0 := fst (run c Fixed st0 pre) in
+  let s1 := fst (run c Fixed s0 mids) in
+  fst (step_ins_with c Fixed s1 (s_inv s0) peer sess p pid nh tok).
+Lemma C20_unreachable_nexthop_excluded_early_read_refuted :
+  exists (c : cfg) (pre mids : list op) peer sess p pid nh tok (e : entry) (a : N),
+    let s := early_state c pre mids peer sess p pid nh tok in
+    let l := d_l (s_get s p) in
+    In e l /\ e_nh e = Some a /\
+    unreachable_after (pre ++ mids ++ [Insert peer sess p pid nh tok]) a false = true /\ In e (selectable l).
+Proof.
+  exists ex_cfg, [], [NhValidity 1 false], 1, 0, (0, 1), 0, (Some (NhV4 1)), 0.
+  eexists. exists 1. cbn zeta. vm_compute. split; [left; reflexivity|]. repeat split; auto.
+Qed.
+Example ex_race_late_excluded :
+  let s := fst (run ex_cfg Fixed st0 ([NhValidity 1 false] ++ [Insert 1 0 (0, 1) 0 (Some (NhV4 1)) 0])) in
+  length (d_l (s_get s (0, 1))) = 1%nat /\ selectable (d_l (s_get s (0, 1))) = [].
+Proof. vm_compute. auto. Qed.
